@@ -42,6 +42,7 @@ pub(crate) static mut INV_KIND: u8 = 0; // which crash-point invariant the ghost
 pub(crate) static mut REMOVED_SRC_AFTER_COPY_OK: bool = true;
 pub(crate) static mut FOREIGN_TOUCHED: bool = false; // something that existed before the run was removed / overwritten
 pub(crate) static mut UNCONTRACTED_FS_CALL: bool = false; // a std::fs entry point outside the contracts was called
+pub(crate) static mut PLANNING: bool = false; // C07 units: the code under test must not change the file system at all
 pub(crate) static mut FAULTS: bool = true; // false: the C20 family runs fault-free (locking is independent of faults)
 // fault tape: the k-th fallible file-system step fails iff TAPE[k] (every position, every combination)
 pub(crate) const TAPE_LEN: usize = 12;
@@ -105,6 +106,7 @@ pub(crate) fn crash_inv() -> bool {
 
 pub(crate) fn mutated(entry: usize) {
     unsafe {
+        assert!(!PLANNING, "C07.planning.no_file_system_change_while_planning");
         MUTATIONS += 1;
         if entry == T {
             FRAME_OK = false;
@@ -200,7 +202,10 @@ fn gfs_mkdirs() -> io::Result<()> {
     if fails() {
         return Err(io_err());
     }
-    unsafe { DIRS_MADE = true };
+    unsafe {
+        assert!(!PLANNING, "C07.planning.no_file_system_change_while_planning");
+        DIRS_MADE = true
+    };
     Ok(())
 }
 
@@ -392,6 +397,7 @@ pub(crate) fn init(kind: u8, faults: bool, lock_may_be_refused: bool) -> (bool, 
         REMOVED_SRC_AFTER_COPY_OK = true;
         FOREIGN_TOUCHED = false;
         UNCONTRACTED_FS_CALL = false;
+        PLANNING = false;
         FAULTS = faults;
         TAPE = if faults { symbolic_tape() } else { [false; TAPE_LEN] };
         TAPE_POS = 0;
